@@ -85,6 +85,9 @@ pub struct Program {
 	pub threads: Vec<Vec<Step>>,
 	pub policy: Policy,
 	pub name: String,
+	/// non-empty: the threads are menu-driven (see menu.rs) and `threads` only fixes their number
+	#[serde(default)]
+	pub menu: Vec<crate::menu::MenuThread>,
 }
 impl Program {
 	pub fn describe(&self) -> String {
@@ -154,11 +157,12 @@ fn run_section(t: &Target<'_>, write: bool, body: Body, w: &str, slots: Vec<Slot
 		if s.excl != write {
 			rt::violation("C02", format!("wrong-access|{}", rt::what_key(w)), format!("`{}` hands out {} access to L{} for a {} acquisition", w, if s.excl { "exclusive" } else { "shared" }, s.leaf, if write { "write" } else { "read" }));
 		}
-		let mut pv = 0u64;
-		for b in &s.poison {
-			pv = pv << 1 | *b as u64;
+	}
+	{
+		let view: Vec<(u32, Vec<bool>)> = slots.iter().map(|s| (s.leaf, s.poison.clone())).collect();
+		if got == t.leaves {
+			crate::menu::check_poison_view(t, t.index, rt::what_key(w).split("::").nth(1).unwrap_or(""), &view);
 		}
-		rt::observe(0x9015 << 32 | (s.leaf as u64) << 8 | pv << 1 | 1);
 	}
 	// C02 iv: everything held at entry
 	check_all_held(t, write, w, "closure-entry");
@@ -190,6 +194,7 @@ fn run_section(t: &Target<'_>, write: bool, body: Body, w: &str, slots: Vec<Slot
 	check_all_held(t, write, w, "closure-exit");
 	if body.panic {
 		rt::note(format!("user panic {}", panic_id));
+		rt::pm_panic_begin(&crate::menu::flags_of(t, t.index, w), write);
 		resume_unwind(Box::new(UserPanic(panic_id)));
 	}
 }
@@ -364,6 +369,7 @@ pub fn acquire(t: &Target<'_>, write: bool, flavour: Flavour, body: Body, key: T
 					// C11: the injected user panic reached the caller; nothing may be leaked
 					rt::end_call();
 					rt::observe(0xbad);
+					rt::pm_panic_end(&crate::menu::flags_of(t, t.index, &w));
 					check_released(&w, "C11", "leak-after-user-panic");
 					if let Some(k) = lent_key {
 						if key_free() {
@@ -403,12 +409,24 @@ pub fn run_thread(tid: usize, steps: &[Step], targets: &[Target<'_>]) {
 			}
 			Step::IsPoisoned(t) => {
 				rt::yield_point(2);
-				let v = targets[*t].coll.is_poisoned().unwrap_or(false);
+				let tg = &targets[*t];
+				let v = tg.coll.is_poisoned().unwrap_or(false);
+				if let Some(f) = crate::menu::target_flag(&tg.spec, *t) {
+					if let Some(e) = rt::pm_expect(f) {
+						if e != v {
+							rt::violation("C10", if e { format!("missed-poison|{}", rt::pm_culprit(f)) } else { format!("spurious-poison|{}::is_poisoned|self", tg.shape) }, format!("{}.is_poisoned() returned {} but the model requires {}", tg.desc, v, e));
+						}
+					}
+				}
 				rt::observe(0x15b0 << 8 | v as u64);
 			}
 			Step::ClearPoison(t) => {
 				rt::yield_point(3);
-				targets[*t].coll.clear_poison();
+				let tg = &targets[*t];
+				tg.coll.clear_poison();
+				if let Some(f) = crate::menu::target_flag(&tg.spec, *t) {
+					rt::pm_clear(f);
+				}
 			}
 			Step::Debug(t) => {
 				rt::begin_call(CallKind::NonAcquiring, false, what(&targets[*t], "Debug"));
